@@ -319,7 +319,40 @@ class World:
             raise Unsupported('== between diagrams inside verified code')
         if isinstance(a, VClass) and isinstance(b, VClass):
             return z3.BoolVal(a.name == b.name)
+        if isinstance(a, VObject) and isinstance(b, VObject) and a.cls == b.cls == 'setof':
+            return self.set_eq(interp, a.attrs['src'], b.attrs['src'])
         return ex.eq(a, b)
+
+    def set_eq(self, interp, a, b):
+        """set(range(n)) == set(lst) (either order): a boolean e with its reading (semantics of set equality, T2):
+        e implies every element of lst is in [0, n) and every v in [0, n) occurs in lst at position where(v); the second
+        half is instantiated on request (ex.set_eq_at(v)) since the engine does not leave quantifiers to the solver"""
+        ex = interp.ex
+        if isinstance(a, VList) and isinstance(b, VRange):
+            a, b = b, a
+        if not (isinstance(a, VRange) and isinstance(b, VList) and T.int_val(a.lo) == 0):
+            raise Unsupported('== between sets other than set(range(n)) and set(list)')
+        n, lst = a.hi, b
+        e = T.fresh('same_set', z3.BoolSort())
+        where = z3.Function(T.fresh_name('where'), T.IntS, T.IntS)
+        for s_ in lst.segs:
+            if s_[0] == 'sub':
+                base = s_[1]
+                ex.add_qhyp([base], (lambda bs: lambda i: [(z3.And(e, 0 <= i, i < bs.length),
+                                                           z3.And(0 <= bs._elem(i).t, bs._elem(i).t < n))])(base))
+            else:
+                for x in s_[1]:
+                    ex.assume(z3.Implies(e, z3.And(0 <= x.t, x.t < n)))
+
+        def at(v):
+            p_ = where(v)
+            ex.assume(z3.Implies(z3.And(e, 0 <= v, v < n), z3.And(0 <= p_, p_ < lst.length())))
+            if ex.entails(z3.And(e, 0 <= v, v < n)):
+                ex.assume(ex.list_at(lst, p_).t == v)
+            return p_
+        ex.set_eq_at = at
+        ex.set_eq_flag = e
+        return e
 
     def contains(self, interp, container, x):
         ex = interp.ex
@@ -684,6 +717,8 @@ class World:
                 return VTuple(cols)
             out = self.to_list(interp, args[0])
             return VList(out.segs, True)
+        if cls == 'py.set' and len(args) == 1 and isinstance(args[0], (VRange, VList)):
+            return VObject('setof', {'src': args[0]})       # set(range(n)) / set(list): only compared (see py_eq)
         if cls == 'py.set' and not args:
             # a set filled by adding the elements of one sequence in order: represented by that sequence and the length of
             # the prefix added so far (ghost representation, see contracts/rewriting.py normal_form)
@@ -1067,7 +1102,23 @@ def _list_index(interp, lst, x):
         if c == len(items):
             raise PyRaise('ValueError', 'x not in list')
         return VInt(c)
-    raise Unsupported('list.index on a symbolic list (needs a contract-level treatment)')
+    # symbolic list: either a smallest position j holds x, or no position does (ValueError)
+    n = lst.length()
+    if ex.fork(2) == 1:
+        for s_ in lst.segs:
+            if s_[0] == 'sub':
+                base, lo, hi = s_[1], s_[2], s_[3]
+                ex.add_qhyp([base], (lambda bs, lo_, hi_: lambda i: [(z3.And(lo_ <= i, i < hi_),
+                                                                     z3.Not(ex.eq(bs._elem(i), x)))])(base, lo, hi))
+            else:
+                for y in s_[1]:
+                    ex.assume(z3.Not(ex.eq(y, x)))
+        raise PyRaise('ValueError', 'x not in list')
+    j = T.fresh('idx', T.IntS)
+    ex.assume(z3.And(0 <= j, j < n))
+    ex.assume(ex.eq(ex.list_at(lst, j), x))
+    ex.index_before = (lst, j, x)      # every earlier position holds another value: instantiated on request
+    return VInt(j)
 
 
 def _all_any(is_all):
